@@ -90,6 +90,13 @@ Print Assumptions C33_key_share_slices_no_panic.
 Theorem C33_read_no_self_deadlock : forall n, lock_run [] (ops_read n) = Ok [].
 Proof. exact read_no_self_deadlock. Qed.
 Print Assumptions C33_read_no_self_deadlock.
+(* the same for any mix of HelloRequests, KeyUpdate(update_requested) whose reply can or cannot be written, and unexpected messages
+   answered with an alert: the reply path holds c.out only while writing and never sends an alert under it *)
+Theorem C33_read_events_no_self_deadlock : forall evs, lock_run [] (ops_read_events evs) = Ok [].
+Proof. exact read_events_no_self_deadlock. Qed.
+Print Assumptions C33_read_events_no_self_deadlock.
+Example C33_ex_alert_under_out_lock_deadlocks : lock_run [] ([Acq L_in; Acq L_out] ++ ops_send_alert ++ [Rel L_out; Rel L_in]) = Err E_SELF_DEADLOCK.
+Proof. vm_compute. reflexivity. Qed.
 (* ... whereas delegating to Handshake() from inside Read would *)
 Example C33_ex_reneg_via_handshake_deadlocks : lock_run [] ([Acq L_in] ++ ops_handshake_context ++ [Rel L_in]) = Err E_SELF_DEADLOCK.
 Proof. vm_compute. reflexivity. Qed.
